@@ -404,8 +404,8 @@ func (tr *Trace) Between(a, b float64) []Polyline {
 			continue
 		}
 		s0, s1 := tr.S[i-1], tr.S[i]
-		if s1 < a || s0 > b {
-			continue
+		if s1 < a || s0 > b || (a < b && math.Min(s1, b) <= math.Max(s0, a)) {
+			continue // no overlap of positive length with [a,b]
 		}
 		p, q := tr.P[i-1], tr.P[i]
 		if s1 > s0 {
@@ -425,6 +425,18 @@ func (tr *Trace) Between(a, b float64) []Polyline {
 		}
 	}
 	flush()
+	return out
+}
+
+// BetweenMin is Between without the stretches shorter than minLen (slivers next to a jump that
+// only exist because two length computations differ in the last digits).
+func (tr *Trace) BetweenMin(a, b, minLen float64) []Polyline {
+	var out []Polyline
+	for _, pl := range tr.Between(a, b) {
+		if Length([]Polyline{pl}) >= minLen {
+			out = append(out, pl)
+		}
+	}
 	return out
 }
 
@@ -515,6 +527,13 @@ func NearestParamMulti(s Seg, q Pt, n int) (float64, float64) {
 	}
 	bt, bd := float64(bi)/float64(n), best
 	f := func(t float64) float64 { return q.Dist(SegAt(s, t)) }
+	if s.Kind == CmdArc {
+		// sampling cannot resolve the tip of a very thin ellipse: also try the point with the same
+		// eccentric angle as q (q itself when q is on the ellipse), refined locally
+		if t, d, ok := arcProject(s, q); ok && d < bd {
+			bt, bd = t, d
+		}
+	}
 	chord := func(i int) float64 {
 		if i < 0 || i >= n {
 			return 0
@@ -531,6 +550,48 @@ func NearestParamMulti(s Seg, q Pt, n int) (float64, float64) {
 		}
 	}
 	return bt, bd
+}
+
+// arcProject maps q radially (in the ellipse's normalised frame) onto the ellipse of the arc; if
+// that point lies on the arc it is refined towards the nearest point within a small bracket.
+func arcProject(s Seg, q Pt) (float64, float64, bool) {
+	c, th0, dth, rx, ry, _ := ArcGeom(s)
+	if dth == 0 {
+		return 0, 0, false
+	}
+	cs, sn := math.Cos(s.Phi), math.Sin(s.Phi)
+	dx, dy := q.X-c.X, q.Y-c.Y
+	th := math.Atan2((-sn*dx+cs*dy)/ry, (cs*dx+sn*dy)/rx)
+	t := arcParamOf(th, th0, dth)
+	period := 2 * math.Pi / math.Abs(dth)
+	if t > 1 && t-period > -1e-12 {
+		t -= period
+	}
+	if t < 0 && t > -1e-12 {
+		t = 0
+	}
+	if t > 1 && t < 1+1e-12 {
+		t = 1
+	}
+	if t < 0 || t > 1 {
+		return 0, 0, false
+	}
+	f := func(t float64) float64 { return q.Dist(SegAt(s, t)) }
+	d := f(t)
+	if d == 0 {
+		return t, 0, true
+	}
+	// the nearest arc point is within 2d of this one: search that neighbourhood
+	h := 1e-6
+	p1 := SegAt(s, math.Min(1, t+h))
+	p0 := SegAt(s, math.Max(0, t-h))
+	if speed := p1.Dist(p0) / (math.Min(1, t+h) - math.Max(0, t-h)); speed > 0 {
+		h = 4 * d / speed
+	}
+	if tt, dd := goldenMin(f, math.Max(0, t-h), math.Min(1, t+h)); dd < d {
+		return tt, dd, true
+	}
+	return t, d, true
 }
 
 func goldenMin(f func(float64) float64, a, b float64) (float64, float64) {
